@@ -45,6 +45,8 @@ pub struct Gen {
     pub fault_pct: u64,
     /// WithCapacity may ask for a table of 131 072 buckets
     pub big_tables: bool,
+    /// churn mode: a phase of removals only, until the collection is empty
+    pub churn_draining: bool,
     /// slot 0 hashes with a `Bands` plan: the bands recipe is then the macro of choice
     pub bands_plan: bool,
     /// C13 churn mode: (bound on live size, removal order 0 random / 1 FIFO / 2 LIFO / 3 middle)
@@ -350,7 +352,13 @@ impl Gen {
         self.order[s].retain(|id| sv.ids.contains(id));
         let table = self.family == Family::Table;
         let r = rng.below(100);
-        let want_insert = sv.len < n && (sv.len == 0 || r < 50);
+        // now and then the collection is emptied completely by individual removals before it is refilled
+        if sv.len == 0 {
+            self.churn_draining = false;
+        } else if !self.churn_draining && sv.len * 2 >= n && rng.below(150) == 0 {
+            self.churn_draining = true;
+        }
+        let want_insert = !self.churn_draining && sv.len < n && (sv.len == 0 || r < 50);
         if want_insert {
             // fresh ids march through the position space; sometimes an old id comes back
             let id = if rng.below(8) == 0 { rng.below(self.universe as u64) as u32 } else {
@@ -362,7 +370,7 @@ impl Gen {
             }
             return Op::new(if table { Kd::TInsertUnique } else { Kd::Insert }).s(s).a(id as i64).b(rng.below(1 << 20) as i64);
         }
-        if r < 85 && !self.order[s].is_empty() {
+        if (r < 85 || self.churn_draining) && !self.order[s].is_empty() {
             let l = self.order[s].len();
             let idx = match order {
                 1 => 0,
